@@ -513,9 +513,43 @@ func checkC20(c *Ctx, r *Report) {
 		arg := ci.Common().Args[2]
 		verdict, fact := numKeysArg(arg, ppNum)
 		r.Check(verdict, "R20b", c.FnName(pp), "numKeys argument", c.Pos(ci.Pos()), fact, fact)
+		_, wholeInput := ci.Common().Args[0].(*ssa.Parameter) // the unsplit name taken as one segment (no separator configured, escaped name)
+		if verdict && arg == ssa.Value(ppNum) && !wholeInput {
+			// nothing is cleared here: the rule "a name with more than one segment addresses list entries whatever
+			// EnableNumKeys says" is then the callers' to keep — each of them must hand over the constant false
+			// (it cannot know the number of segments without splitting the name itself)
+			callers, asValue := c.StaticCallers(pp)
+			if asValue {
+				r.add("R20b", c.FnName(pp), "numKeys argument of the callers", c.Pos(pp.Pos()), Undecided, true, "parsePath is used as a value: its callers cannot be enumerated")
+			}
+			for _, cf := range callers {
+				for _, cc := range CallsTo(cf, pp, false) {
+					a := argOfParam(cc, pp, ppNum)
+					b, isConst := ConstBool(a)
+					r.Check(isConst && !b, "R20b", c.FnName(cf), "numKeys argument handed to parsePath", c.Pos(cc.Pos()), "the constant false: parsePath does not clear the flag itself",
+						"parsePath hands its enableNumKeys to every segment without clearing it for names of more than one segment, and this caller passes a flag that can be true: with EnableNumKeys a numeric segment of a dotted name (`${list.1}`, `a.0.b`) becomes a name instead of a list index")
+				}
+			}
+		}
 	}
 	if nCalls == 0 {
 		r.Bad("R20b", c.FnName(pp), "numKeys argument", c.Pos(pp.Pos()), "parsePath does not call parseField")
+	}
+	// every other call of the classifier: the flag may be true only for a name that is one segment
+	for _, fn := range c.SrcFuncs() {
+		if fn == pp || fn.Pkg != c.SSA[""] {
+			continue
+		}
+		for _, ci := range CallsTo(fn, pf, false) {
+			arg := ci.Common().Args[2]
+			if b, isConst := ConstBool(arg); isConst && !b {
+				r.OK("R20b", c.FnName(fn), "numKeys argument", c.Pos(ci.Pos()), "the constant false")
+				continue
+			}
+			ok := singleSegmentEvidence(ci.Block(), ci.Common().Args[0], 0)
+			r.Check(ok, "R20b", c.FnName(fn), "numKeys argument", c.Pos(ci.Pos()), "the flag can be true only where the name was tested to hold no separator",
+				"parseField is called outside parsePath with a numeric-keys flag that can be true and the name is not known to be a single segment (no `!strings.Contains(name, sep)` / `sep == \"\"` on every way to the call)")
+		}
 	}
 
 	// R20c
@@ -547,6 +581,27 @@ func checkC20(c *Ctx, r *Report) {
 			r.Check(good, "R20c", c.FnName(fn), "idxField from API index", c.Pos(st.Pos()), "index comes from an integer parameter", "an index field is built outside parseField from a value that is not an integer parameter ("+describeVals(Sources(st.Val))+"): a second, unchecked classifier of path segments")
 		})
 	}
+	// the other half: a segment becomes a *name* only by the classifier's verdict. A named field built anywhere else
+	// skips the question "is this text an index?" (a fast path for "plain" names that knows decimal digits only
+	// turns 0x2, +2, 1_0 into names).
+	namedT = c.Named("", "namedField")
+	for _, fn := range c.SrcFuncs() {
+		if fn == pf || fn.Pkg != c.SSA[""] {
+			continue
+		}
+		Instrs(fn, false, func(in ssa.Instruction) {
+			st, ok := in.(*ssa.Store)
+			if !ok {
+				return
+			}
+			n, _, ok := FieldOf(st.Addr)
+			if !ok || n != namedT {
+				return
+			}
+			r.Bad("R20c", c.FnName(fn), "namedField built outside parseField", c.Pos(st.Pos()), "a named path segment is built outside parseField from "+describeVals(Sources(st.Val))+": the text was never asked whether it is a list index in one of Go's integer syntaxes (a second classifier of path segments)")
+		})
+	}
+	r.Analysed["constructions of namedField outside parseField"] = 0
 }
 
 func sideStr(s string, k int64) string {
@@ -598,6 +653,49 @@ func numKeysArg(arg ssa.Value, param *ssa.Parameter) (bool, string) {
 		return false, "the caller's enableNumKeys never reaches parseField"
 	}
 	return true, "enableNumKeys cleared only under len(elems) > 1"
+}
+
+// singleSegmentEvidence: every way into block b carries the fact that `name` holds no separator — the false edge of
+// strings.Contains(name, sep) or the true edge of sep == "" — directly or further up a chain of single entries.
+func singleSegmentEvidence(b *ssa.BasicBlock, name ssa.Value, depth int) bool {
+	if depth > 6 || len(b.Preds) == 0 {
+		return false
+	}
+	for _, p := range b.Preds {
+		ifi, isIf := lastInstr(p).(*ssa.If)
+		ev := false
+		if isIf && len(p.Succs) == 2 && p.Succs[0] != p.Succs[1] {
+			truth := p.Succs[0] == b
+			cond := ifi.Cond
+			if u, isNot := cond.(*ssa.UnOp); isNot && u.Op == token.NOT {
+				cond, truth = u.X, !truth
+			}
+			switch x := cond.(type) {
+			case *ssa.Call:
+				if g := x.Call.StaticCallee(); g != nil && g.String() == "strings.Contains" && !truth && (x.Call.Args[0] == name || SameValue(x.Call.Args[0], name)) {
+					ev = true
+				}
+			case *ssa.BinOp:
+				if sv, isStr := ConstString(x.Y); isStr && sv == "" && (x.Op == token.EQL && truth || x.Op == token.NEQ && !truth) {
+					ev = true
+				}
+			}
+		}
+		if !ev && !singleSegmentEvidence(p, name, depth+1) {
+			return false
+		}
+	}
+	return true
+}
+
+// argOfParam: the argument a call of fn passes for parameter p.
+func argOfParam(site ssa.CallInstruction, fn *ssa.Function, p *ssa.Parameter) ssa.Value {
+	for i, q := range fn.Params {
+		if q == p && i < len(site.Common().Args) {
+			return site.Common().Args[i]
+		}
+	}
+	return nil
 }
 
 func isLenGT1(f Cmp) bool {
